@@ -53,10 +53,10 @@ Blocky(n)    == (IF n >= 66 THEN {<<63, 2, n - 65>>, <<64, n - 64>>} ELSE {})
 \* <<type, initial value, pieces>>: CRCs with zero and non-zero initial value, whole and in pieces
 Plans(x) ==
     LET n == x.len  p == x.p  i32 == Init32(x)  i64 == Init64(x)
-    IN  {<<"crc32", <<0, 0>>, ps>> : ps \in Whole(n) \cup Split2(n, p)}
-        \cup {<<"crc32", i32, ps>> : ps \in Whole(n) \cup Split3(n, p) \cup Ones(n)}
-        \cup {<<"crc64", <<0, 0, 0, 0>>, ps>> : ps \in Whole(n) \cup Split2(n, p)}
-        \cup {<<"crc64", i64, ps>> : ps \in Whole(n) \cup Split3(n, p) \cup Ones(n)}
+    IN  {<<"crc32", <<0, 0>>, ps>> : ps \in Whole(n) \cup Split3(n, p)}
+        \cup {<<"crc32", i32, ps>> : ps \in Whole(n) \cup Split2(n, p) \cup Ones(n)}
+        \cup {<<"crc64", <<0, 0, 0, 0>>, ps>> : ps \in Whole(n) \cup Split3(n, p)}
+        \cup {<<"crc64", i64, ps>> : ps \in Whole(n) \cup Split2(n, p) \cup Ones(n)}
         \cup {<<"sha256", <<>>, ps>> : ps \in Whole(n) \cup Split2(n, p) \cup Split3(n, p) \cup Ones(n) \cup Blocky(n)}
 Offset(ps, j) == FoldLeft(LAMBDA a, i : a + ps[i], 0, Iota(j))
 
